@@ -156,6 +156,82 @@ pub fn case(ctx: &Ctx, idx: u64) -> CaseOut {
             }
         }
     }
+    // the hand-over itself under cycles the optimiser did not happen to choose in this run: the
+    // search result is given rotation cycles that were rearranged by 1-4 random `move_vehicle`
+    // steps per type (better or WORSE than the carried ones in violation and in counter); the
+    // schedule must carry exactly the cycles it was handed, for every type, and its violation
+    // must be the sum over the handed transitions. (The pipeline only ever shows the hand-over
+    // the cycles of one optimiser run; a hand-over that filters what it is given - keeps the old
+    // cycles of a type unless ... - is otherwise seen only when that run meets the condition.)
+    {
+        let s1_schedule = &rec.stages[2].1;
+        let net = s1_schedule.get_network();
+        let tours = s1_schedule.get_tours();
+        let mut handed: std::collections::HashMap<model::base_types::VehicleTypeIdx, solution::transition::Transition> = std::collections::HashMap::new();
+        let mut rearranged_types = 0u64;
+        let built = guard(|| {
+            let mut handed = std::collections::HashMap::new();
+            let mut rearranged = 0u64;
+            for t in 0..inst.types.len() {
+                let mut tr = s1_schedule.next_day_transition_of(vt(t)).clone();
+                let vehicles: Vec<VehicleIdx> = tr.cycles_iter().flat_map(|c| c.iter().collect::<Vec<_>>()).collect();
+                let ncycles = tr.number_of_cycles();
+                if vehicles.len() >= 2 && ncycles >= 1 {
+                    let before = TransObs::of(&tr).canonical();
+                    for _ in 0..rng.usize(1, 4) {
+                        let v = *rng.pick(&vehicles);
+                        let c = rng.usize(0, ncycles - 1);
+                        tr = tr.move_vehicle(v, c, tours, &net);
+                    }
+                    if TransObs::of(&tr).canonical() != before {
+                        rearranged += 1;
+                    }
+                }
+                handed.insert(vt(t), tr);
+            }
+            (handed, rearranged)
+        });
+        match built {
+            Err(p) => out.inconclusive.push(format!("rearranging the cycles for the hand-over probe panicked ({})", p.sig())),
+            Ok((h, r)) => {
+                handed = h;
+                rearranged_types = r;
+            }
+        }
+        if rearranged_types > 0 {
+            let want: Vec<Vec<Vec<VehicleIdx>>> = (0..inst.types.len()).map(|t| TransObs::of(&handed[&vt(t)]).canonical()).collect();
+            let want_violation: i64 = (0..inst.types.len()).map(|t| handed[&vt(t)].maintenance_violation() as i64).sum();
+            let worse = (0..inst.types.len()).filter(|&t| handed[&vt(t)].maintenance_counter() > s1_schedule.next_day_transition_of(vt(t)).maintenance_counter()).count();
+            match guard(|| s1_schedule.set_next_day_transitions(handed.iter().map(|(k, v)| (*k, v.clone())).collect())) {
+                Err(p) => out.viol("C16", &format!("handover.{}", p.sig()), format!("set_next_day_transitions panicked on rearranged cycles: {} at {}", p.message, p.location)),
+                Ok(after) => {
+                    out.count("handover_probes", 1);
+                    out.count("handover_probe_types_rearranged", rearranged_types);
+                    out.count("handover_probe_types_with_larger_counter_than_before", worse as u64);
+                    for t in 0..inst.types.len() {
+                        let got = TransObs::of(after.next_day_transition_of(vt(t))).canonical();
+                        if got != want[t] {
+                            out.viol(
+                                "C16",
+                                "handover.cycles_not_carried",
+                                format!("type {}: the schedule was handed the cycles {:?} but carries {:?} (search result had {:?})", inst.types[t].id, want[t], got, s1.transitions[t].canonical()),
+                            );
+                        }
+                    }
+                    if after.maintenance_violation() as i64 != want_violation {
+                        out.viol(
+                            "C16",
+                            "handover.violation_not_of_the_handed_cycles",
+                            format!("after the hand-over the schedule reports maintenance violation {} but the handed transitions sum to {}", after.maintenance_violation(), want_violation),
+                        );
+                    }
+                    if after.get_tours().len() != tours.len() {
+                        out.viol("C16", "handover.tours_changed", "handing over cycles changed the number of tours".to_string());
+                    }
+                }
+            }
+        }
+    }
     // final schedule: activities of S1, start depots unchanged, cycles T*, end depots follow T*
     if activities(s3) != activities(s1) {
         out.viol("C16", "final.activities_differ_from_search_result", "activities per vehicle of the final schedule are not those of the local-search result".to_string());
